@@ -1,7 +1,7 @@
 #!/usr/bin/env python3
 """Run checks against benign refactorings (as in-memory overlays). Any report is a false alarm.
 usage: benign_run.py [--own] [--dir benign|benign2] <ID>...      patches /tmp/seed/<ID>/<dir>/N/patch.diff
-       benign_run.py [--own] --stored [glob]                      patches /verif/selftest/variants/{b,b2,b3,b4,b5}/<glob>.diff
+       benign_run.py [--own] --stored [glob]                      patches /verif/selftest/variants/{b,b2,b3,b4,b5,b6}/<glob>.diff
 --own: only the check of the property the variant was written for (default: every property)."""
 import json, os, subprocess, sys, glob
 from concurrent.futures import ThreadPoolExecutor
@@ -18,7 +18,7 @@ if os.environ.get("PROPS"):
 patches = []
 if args and args[0] == "--stored":
     pat = args[1] if len(args) > 1 else "*"
-    patches = [(p, os.path.basename(p).split("-")[0]) for p in sorted(glob.glob(f"/verif/selftest/variants/b/{pat}.diff") + glob.glob(f"/verif/selftest/variants/b2/{pat}.diff") + glob.glob(f"/verif/selftest/variants/b3/{pat}.diff") + glob.glob(f"/verif/selftest/variants/b4/{pat}.diff") + glob.glob(f"/verif/selftest/variants/b5/{pat}.diff"))]
+    patches = [(p, os.path.basename(p).split("-")[0]) for p in sorted(glob.glob(f"/verif/selftest/variants/b/{pat}.diff") + glob.glob(f"/verif/selftest/variants/b2/{pat}.diff") + glob.glob(f"/verif/selftest/variants/b3/{pat}.diff") + glob.glob(f"/verif/selftest/variants/b4/{pat}.diff") + glob.glob(f"/verif/selftest/variants/b5/{pat}.diff") + glob.glob(f"/verif/selftest/variants/b6/{pat}.diff"))]
 else:
     for pid in args:
         patches += [(p, pid) for p in sorted(glob.glob(f"/tmp/seed/{pid}/{d}/*/patch.diff"))]
